@@ -18,12 +18,22 @@ Definition check06 : bool :=
   ok_prog_from (nthb may_poke_serving) sel_none serve_env no_exempt 0 skeleton &&
   forallb (fun f => negb (nthb may_poke_serving f)) entries_serve.
 
+(* mutating operations: every guard may hold; reading operations: the reading configuration (access times off,
+   files opened for reading, nothing created) -- [serve_env] *)
+Definition nthf (l : list bool) (i : nat) : bool := nth i l false.
+Definition nw_none (f : nat) : bool := false.      (* no function is claimed write-free: the section must be opened with the write side *)
 Definition check14_atomic : bool :=
   quiet_prog_from (nthb quiet_fns) all_on 0 skeleton &&
-  forallb (fun f => one_span_items (nthb quiet_fns) all_on false (nth f skeleton [])) atomic_entries.
+  nowrite_prog_from all_on nw_none 0 skeleton &&
+  forallb (fun f => one_span_items (nthb quiet_fns) all_on nw_none false (nth f skeleton [])) atomic_entries.
+Definition check14_atomic_read : bool :=
+  quiet_prog_from (nthb quiet_fns) serve_env 0 skeleton &&
+  nowrite_prog_from serve_env (nthf nowrite_fns) 0 skeleton &&
+  forallb (fun f => one_span_items (nthb quiet_fns) serve_env (nthf nowrite_fns) false (nth f skeleton [])) atomic_read_entries.
 
 Lemma check14_holds : check14 = true. Proof. vm_compute. reflexivity. Qed.
 Lemma check14_atomic_holds : check14_atomic = true. Proof. vm_compute. reflexivity. Qed.
+Lemma check14_atomic_read_holds : check14_atomic_read = true. Proof. vm_compute. reflexivity. Qed.
 Lemma check15_holds : check15 = true. Proof. vm_compute. reflexivity. Qed.
 Lemma check06_holds : check06 = true. Proof. vm_compute. reflexivity. Qed.
 
@@ -77,12 +87,29 @@ Qed.
    shared) section: in every execution that takes the top level of the function in program order,
    every lock event and every store lies inside a single outermost with-block, with nothing but
    lock-free, store-free code before and after it *)
-Theorem skel_atomic_single_section f body t :
+Theorem skel_atomic_single_section f body t w :
   In f atomic_entries -> nth_error skeleton f = Some body -> exec_seq skeleton all_on f body t ->
-  span_ok 0 0 t = true.
+  span_ok 0 0 w t = true.
 Proof.
-  intros Hin Hn H. pose proof check14_atomic_holds as C. unfold check14_atomic in C. apply andb_true_iff in C as [C1 C2].
+  intros Hin Hn H. pose proof check14_atomic_holds as C. unfold check14_atomic in C.
+  apply andb_true_iff in C as [C C2]. apply andb_true_iff in C as [C1 C3].
   rewrite forallb_forall in C2. specialize (C2 f Hin). rewrite (nth_error_nth _ _ _ Hn) in C2.
-  apply (one_span_sound skeleton all_on (nthb quiet_fns)
-           (fun g b Hg => quiet_prog_from_nth _ _ _ 0 C1 g b Hg) f body t H false C2).
+  apply (one_span_sound skeleton all_on (nthb quiet_fns) nw_none
+           (fun g b Hg => quiet_prog_from_nth _ _ _ 0 C1 g b Hg)
+           (fun g b Hg => nowrite_prog_from_nth _ _ _ 0 C3 g b Hg) f body t H false w C2).
+Qed.
+
+(* the reading operations (read_bytes / read_text / iterdir / glob / rglob / readall) in the reading
+   configuration: one section opened with the read side, in which the write side is never requested
+   (an upgrade would let go of the read side first) *)
+Theorem skel_atomic_read_single_section f body t w :
+  In f atomic_read_entries -> nth_error skeleton f = Some body -> exec_seq skeleton serve_env f body t ->
+  span_ok 0 0 w t = true.
+Proof.
+  intros Hin Hn H. pose proof check14_atomic_read_holds as C. unfold check14_atomic_read in C.
+  apply andb_true_iff in C as [C C2]. apply andb_true_iff in C as [C1 C3].
+  rewrite forallb_forall in C2. specialize (C2 f Hin). rewrite (nth_error_nth _ _ _ Hn) in C2.
+  apply (one_span_sound skeleton serve_env (nthb quiet_fns) (nthf nowrite_fns)
+           (fun g b Hg => quiet_prog_from_nth _ _ _ 0 C1 g b Hg)
+           (fun g b Hg => nowrite_prog_from_nth _ _ _ 0 C3 g b Hg) f body t H false w C2).
 Qed.
